@@ -2,7 +2,7 @@
 # usage: tools/try_seed.sh <patch.diff> <Cxx> [<Cxx>...]   — apply a seeded change to /repo, run the
 # quick checks, and undo it straight afterwards. Never leaves /repo modified.
 set -u
-patch=$1; shift
+patch=$(realpath $1); shift
 cd /verif
 if ! git -C /repo diff --quiet; then echo "/repo is dirty, refusing"; exit 2; fi
 git -C /repo apply "$patch" || { echo "patch does not apply"; exit 2; }
